@@ -127,7 +127,7 @@ def cmd_check(prop: str, tier: str, seed: int, workers: int) -> int:
     batches = []
     for b in range(tc["batches"]):
         bs = H(seed, prop, tier, b)
-        batches.append({"b": b, "batch_seed": bs, "hashseed": bs % (2 ** 32),
+        batches.append({"b": b, "batch_seed": bs, "hashseed": (bs ^ int(os.environ.get("VERIF_HASHSEED_XOR", "0"))) % (2 ** 32),
                         "out": os.path.join(outdir, f"batch-{b}.json")})
     pending = list(batches)
     running = []
